@@ -280,6 +280,9 @@ def check_reply_correlation(prog, rep):
                 bad.append("the reply is replaced by an untracked value")
                 continue
             h = resp.fields[P["header"]]
+            if not isinstance(h, StructV):
+                bad.append("the reply header is replaced by an untracked value")
+                continue
             mid = h.fields[H["message_id"]] if isinstance(h, StructV) else None
             if not (isinstance(mid, IntV) and isinstance(init["mid"], IntV) and mid.aff == init["mid"].aff):
                 bad.append("the message id of the reply is changed")
